@@ -51,7 +51,14 @@ func TestVerifC02Reload(t *testing.T) {
 			if q.Qtype != dns.TypeA {
 				return nil, dns.RcodeSuccess
 			}
-			if strings.HasPrefix(q.Name, "byname") {
+			if strings.HasPrefix(q.Name, "bylate") {
+				// CNAME to a target that only the last rule change of the
+				// round blocks.
+				lbl := strings.SplitN(q.Name, ".", 2)[0]
+				tgt := "late-" + strings.TrimPrefix(lbl[:strings.LastIndex(lbl, "-")], "bylate-") + ".bad.reload.test."
+				ans = append(ans, &dns.CNAME{Hdr: dns.RR_Header{Name: q.Name, Rrtype: dns.TypeCNAME, Class: dns.ClassINET, Ttl: 60}, Target: tgt})
+				ans = append(ans, &dns.A{Hdr: dns.RR_Header{Name: tgt, Rrtype: dns.TypeA, Class: dns.ClassINET, Ttl: 60}, A: net.IPv4(198, 18, 7, 8).To4()})
+			} else if strings.HasPrefix(q.Name, "byname") {
 				ans = append(ans, &dns.CNAME{Hdr: dns.RR_Header{Name: q.Name, Rrtype: dns.TypeCNAME, Class: dns.ClassINET, Ttl: 60}, Target: dns.Fqdn(badName)})
 				ans = append(ans, &dns.A{Hdr: dns.RR_Header{Name: dns.Fqdn(badName), Rrtype: dns.TypeA, Class: dns.ClassINET, Ttl: 60}, A: net.IPv4(198, 18, 7, 7).To4()})
 			} else {
@@ -180,6 +187,35 @@ func TestVerifC02Reload(t *testing.T) {
 			}
 			adminBusy.Add(1)
 			time.Sleep(time.Duration(5+rng.Intn(25)) * time.Millisecond)
+		}
+		// A burst of rule changes without waiting in between; only the last
+		// one blocks the round's "late" target.  It must come into force.
+		lateTarget := fmt.Sprintf("late-%d.bad.reload.test", round)
+		for b := 0; b < 3; b++ {
+			rules := append([]string{}, fixed...)
+			rules = append(rules, fmt.Sprintf("||burst%d-%d.other.test^", round, b))
+			if b == 2 {
+				rules = append(rules, "||"+lateTarget+"^")
+			}
+			_, _ = c01HCall(vs, "POST", "/control/filtering/set_rules", map[string]any{"rules": rules})
+		}
+		rep.Class("op:burst-of-3-rule-changes")
+		lateOK := false
+		var lateReply string
+		for w := 0; w < 400 && !lateOK; w++ {
+			resp, xerr := vkExchange(vs, "127.0.0.1", false, fmt.Sprintf("bylate-%d-%d.reload.test.", round, w), dns.TypeA)
+			if xerr == nil && resp != nil {
+				lateReply = resp.String()
+				lateOK = !strings.Contains(lateReply, "198.18.7.8") && !strings.Contains(lateReply, lateTarget)
+			}
+			if !lateOK {
+				time.Sleep(15 * time.Millisecond)
+			}
+		}
+		rep.Eval(true, fmt.Sprintf("late|%d", round))
+		if !lateOK {
+			rep.Violate("reload:last-rule-change-of-a-burst-not-in-force", "6 s after three rule changes in quick succession an answer revealing a value blocked by the last one is still delivered",
+				map[string]any{"round": round, "blocked_by_last_change": lateTarget, "reply": lateReply})
 		}
 		stop.Store(true)
 		wg.Wait()
